@@ -10,41 +10,45 @@ Open Scope Z_scope.
 
 Lemma sm_set_ok tbl : sm_ok (enc_of tbl) (sm_of (SMset tbl)).
 Proof.
-  intros i res H1 H2. cbn [sm_of]. refine (conj _ (conj _ _)).
+  intros i res H1 H2 H3. cbn [sm_of]. refine (conj _ (conj _ (conj _ _))).
   - apply dget_dset_same.
   - apply dget_dset_other. exact k_id_neq_data.
   - rewrite dget_dset_other by exact k_ch_neq_data. exact H2.
+  - rewrite dget_dset_other by discriminate. exact H3.
 Qed.
 
 Lemma sm_wrap_ok tbl : sm_ok (fun i => JList [JStr (i_name i); enc_of tbl i]) (sm_of (SMwrap tbl)).
 Proof.
-  intros i res H1 H2. cbn [sm_of]. rewrite H1. refine (conj _ (conj _ _)).
+  intros i res H1 H2 H3. cbn [sm_of]. rewrite H1. refine (conj _ (conj _ (conj _ _))).
   - apply dget_dset_same.
   - apply dget_dset_other. exact k_id_neq_data.
   - rewrite dget_dset_other by exact k_ch_neq_data. exact H2.
+  - rewrite dget_dset_other by discriminate. exact H3.
 Qed.
 
 Lemma sm_new_keep_ok tbl : sm_ok (enc_of tbl) (sm_of (SMnew tbl true)).
 Proof.
-  intros i res H1 H2. cbn [sm_of]. refine (conj _ (conj _ _)).
+  intros i res H1 H2 H3. cbn [sm_of]. refine (conj _ (conj _ (conj _ _))).
   - reflexivity.
+  - destruct (dget k_data_id res); reflexivity.
   - destruct (dget k_data_id res); reflexivity.
   - destruct (dget k_data_id res); reflexivity.
 Qed.
 
 Lemma sm_extra_ok tbl : sm_ok enc_name (sm_of (SMextra tbl)).
 Proof.
-  intros i res H1 H2. cbn [sm_of]. refine (conj _ (conj _ _)).
+  intros i res H1 H2 H3. cbn [sm_of]. refine (conj _ (conj _ (conj _ _))).
   - rewrite dget_dset_other by discriminate. exact H1.
   - apply dget_dset_other. discriminate.
   - rewrite dget_dset_other by discriminate. exact H2.
+  - rewrite dget_dset_other by discriminate. exact H3.
 Qed.
 
 (* the mapper that returns a new dict without data_id is not admissible *)
 Lemma sm_new_drop_not_ok tbl enc : ~ sm_ok enc (sm_of (SMnew tbl false)).
 Proof.
   intros H.
-  destruct (H (I 0 0 0 true [] (DInt 1) None []) [(k_data, JStr []); (k_data_id, JInt 1)] eq_refl eq_refl) as (_ & E & _).
+  destruct (H (I 0 0 0 true [] (DInt 1) None []) [(k_data, JStr []); (k_data_id, JInt 1)] eq_refl eq_refl eq_refl) as (_ & E & _).
   discriminate E.
 Qed.
 
@@ -129,7 +133,6 @@ Proof. reflexivity. Qed.
 
 (* the literal keys of the source (regenerated from /repo on every run) are the
    keys of the model; the data_id test is the guarded [self._data_id == hash(self._data)] *)
-Definition k_node_id : text := [110; 111; 100; 101; 95; 105; 100].
 Lemma source_keys_ok :
   TO_DICT_KEYS = [k_data; k_data_id; k_children] /\
   FROM_DICT_KEYS = [k_data; k_data_id; k_node_id; k_children] /\
@@ -185,3 +188,15 @@ Proof.
     apply Forall_cons; [|apply Forall_nil].
     apply (canon_id _ [97] (I (-1) 1 11 true [97] (DInt 0) None []) (DInt 0)); [reflexivity|reflexivity|discriminate|discriminate].
 Qed.
+
+(* explicit node ids of hand-written dicts: kept; a second use is refused by the
+   assert of Tree._register (before the data_id of that item is looked at) *)
+Lemma ex_node_ids :
+  tree_from_dict (dd_raw ex_raw) 0
+    [JDict [(k_data, JStr [97]); (k_node_id, JInt 5); (k_children, JList [JDict [(k_data, JStr [98]); (k_node_id, JStr [49; 50])]])]] =
+  inl [T 1 (I (-1) 1 11 true [97] (DInt 11) None [(k_node_id, A 5)])
+         [T 2 (I (-1) 2 22 true [98] (DInt 22) None [(k_node_id, A 12)]) []]] /\
+  tree_from_dict (dd_raw ex_raw) 0
+    [JDict [(k_data, JStr [97]); (k_node_id, JInt 5)]; JDict [(k_data, JStr [98]); (k_node_id, JInt 5); (k_data_id, JList [])]] =
+  inr E_ASSERT.
+Proof. split; reflexivity. Qed.
